@@ -251,6 +251,9 @@ class Engine:
             if base[0] == 'S':
                 v = self.project(T('deref', base[1]), proj)
             elif base[0] == 'K':
+                if len(base) > 3:
+                    tyix, crate = base[2]
+                    return self.project(self.decode_bytes(base[1], crate.types[tyix], crate, 0, dict(base[3])), proj)
                 return self.project(self.decode_const(base[1], base[2]), proj)
             else:
                 v = self.project(('sym', 'uninit:%s' % (base,)), proj)
@@ -432,6 +435,9 @@ class Engine:
             return self.decode_bytes(o['bytes'], t, crate, 0, relocs or None)
         if 'ptr_bytes' in o:
             if t.get('k') in ('ref', 'ptr'):
+                rl = tuple(sorted((int(r['off']), FnInfo(r['fn'])) for r in (o.get('relocs') or [])))
+                if rl:
+                    return ('ref', (('K', o['ptr_bytes'], (t['inner'], crate), rl), ()))
                 return ('ref', (('K', o['ptr_bytes'], (t['inner'], crate)), ()))
             return C(('b', o['ptr_bytes']), ts)
         if t.get('k') == 'closure':
